@@ -127,6 +127,12 @@ def handle (payload impl : String) : String × String :=
           let states := stateTexts.filterMap parseState
           if states.length ≠ stateTexts.length then "FAIL unparsable-impl-answer"
           else
+            -- one storage cell per key expression: the same key tree listed twice means a store and a
+            -- load disagreed about where that key lives
+            let rec dupKey : List (SV × List SV) → Bool
+              | [] => false
+              | (k, _) :: r => r.any (fun (k', _) => k.beq k') || dupKey r
+            if states.any (fun s => dupKey s.st) then "FAIL C07-storage-key-listed-twice: one key expression has two storage cells on one path" else
             match quirkSets.find? (fun (_, q) => (diffsUnder q bytes states).isEmpty) with
             | some ([], _) => "ok"
             | some (names, _) =>
